@@ -1,7 +1,6 @@
 ---- MODULE Dbg18 ----
 EXTENDS SchemaModel_MC18
-DS == {d \in Descs(3) : ValidDesc(d) /\ d.kind = "pre1"}
-Post == TLCGet("stats").distinct >= 0 => PrintT(<<Cardinality(DS), Cardinality({ WFDeco(Bases[3].B, DecoOf(d)) : d \in DS})>>)
+Post == TLCGet("stats").distinct >= 0 => PrintT(<<1>>)
 DInit == st = Desc(1, "base", 1, 0)
 DNext == st.b = 99 /\ st' = st
 ====
